@@ -258,6 +258,14 @@ pub fn decode_one(buf: &[u8]) -> Option<RefFrame> {
 }
 
 impl RefFrame {
+    /// The decoder under test ignores the reserved bit 7 of a response function code (0x82 is read
+    /// like 0x02); comparisons with its output are made on this normal form.
+    pub fn normalised(&self) -> RefFrame {
+        match self.clone() {
+            RefFrame::Data { da, sa, dsap, ssap, fc, pdu } if !fc_is_request(fc) => RefFrame::Data { da, sa, dsap, ssap, fc: fc & 0x7F, pdu },
+            other => other,
+        }
+    }
     pub fn sa(&self) -> Option<u8> {
         match self {
             RefFrame::Token { sa, .. } => Some(*sa),
